@@ -5,6 +5,7 @@
 // pass reports, so the run is deterministic and the Lean model (lean/Driver/C06.lean) can be
 // executed on the same file.  The other end of the pair is the peer: what arrives there is `wire`.
 #include "vh.h"
+#include "vtime.h"
 #include <deque>
 #include <functional>
 #include <map>
@@ -16,6 +17,7 @@
 #include <sys/epoll.h>
 #include <sys/socket.h>
 #include <sys/uio.h>
+#include <sys/un.h>
 #include <unistd.h>
 #include <tbox/base/log_output.h>
 #include <tbox/event/loop.h>
@@ -54,6 +56,7 @@ static uint32_t g_mask = 0;
 static bool g_filter = false;
 static std::string g_wire_new;
 static std::map<std::string, uint64_t> g_faults;
+static int g_nevents = 0;            // fd events delivered by the filtered epoll_wait (quiescence detection)
 
 typedef ssize_t (*write_t)(int, const void *, size_t);
 typedef ssize_t (*read_t)(int, void *, size_t);
@@ -118,6 +121,7 @@ extern "C" int epoll_wait(int epfd, struct epoll_event *ev, int max, int timeout
         uint32_t e = ev[i].events & g_mask;
         if (e) { ev[m] = ev[i]; ev[m].events = e; ++m; }
     }
+    g_nevents += m;
     return m;
 }
 
@@ -180,6 +184,8 @@ static std::function<void(int)> errno_cb(Script *s, const char *name) {
     return [s, name](int e) { g_ev.push_back(name + std::to_string(e)); run_acts(*s); };
 }
 
+namespace net { static void destroy(); }
+
 static void flush_loop() {       // run deferred deletions
     g_filter = true; g_mask = 0;
     g_loop->runLoop(event::Loop::Mode::kOnce);
@@ -187,6 +193,7 @@ static void flush_loop() {       // run deferred deletions
 }
 
 static void reset_case() {
+    net::destroy();
     int fd = g_fd;
     g_fd = -1;                   // interposers off
     if (g_c) { delete g_c; g_c = nullptr; }
@@ -452,6 +459,263 @@ static void run_e2e(bool sc, uint64_t n1, uint64_t c1, uint64_t n2, uint64_t c2,
     std::cout << "M e2e spres=" << (srv.presentations > 0) << " cpres=" << (cli.presentations > 0) << "\n";
 }
 
+// ---------------------------------------------------------------- the TCP plumbing ("net" ops)
+// One TcpServer, two TcpClients, one bare TcpConnector and one raw peer socket on a Unix-domain
+// socket, real loop, virtual clock.  After every op the loop runs passes (epoll timeout 0) until
+// nothing happens any more; the callbacks seen are printed grouped per object / per connection
+// (order inside a connection kept), so the line does not depend on the order in which epoll
+// reports different descriptors.
+namespace net {
+using namespace network;
+struct NAct { char kind; std::vector<uint8_t> d; };       // 'p' stop, 'c' cleanup, 'd' disconnect (this token), 's' send, 't' start
+typedef std::vector<NAct> NScript;
+struct NEv { char kind; std::string bytes; };             // 'C' connected, 'R' received, 'S' send complete, 'D' disconnected, 'F' connect failed
+
+static std::string g_path;
+static TcpServer *sv = nullptr;
+static std::vector<TcpServer::ConnToken> toks;            // every token ever handed out, in order
+static std::map<size_t, std::vector<NEv>> sv_ev;          // token index -> events of this op
+static NScript sv_conn, sv_disc, sv_recv, sv_sc;
+static TcpClient *cl[2] = {nullptr, nullptr};
+static std::vector<NEv> cl_ev[2];
+static NScript cl_conn[2], cl_disc[2], cl_recv[2], cl_sc[2];
+static TcpConnector *kn = nullptr;
+static std::vector<NEv> kn_ev;
+static NScript kn_fail, kn_conn;
+static int raw_fd = -1;
+static std::string raw_got; static bool raw_eof = false, raw_hold = false;
+static int g_activity = 0;
+
+static void add(std::vector<NEv> &v, char kind, const uint8_t *p = nullptr, size_t n = 0) {
+    ++g_activity;
+    if (kind == 'R' && !v.empty() && v.back().kind == 'R') { v.back().bytes.append((const char *)p, n); return; }
+    NEv e; e.kind = kind; if (p) e.bytes.assign((const char *)p, n); v.push_back(e);
+}
+static size_t tok_index(const TcpServer::ConnToken &t) {
+    for (size_t i = 0; i < toks.size(); ++i) if (toks[i] == t) return i;
+    toks.push_back(t); return toks.size() - 1;
+}
+static void sv_run(const NScript &sc, const TcpServer::ConnToken &t) {
+    NScript acts = sc;
+    for (auto &a : acts) {
+        if (!sv) return;
+        switch (a.kind) {
+            case 'p': sv->stop(); break;
+            case 'c': sv->cleanup(); break;
+            case 'd': sv->disconnect(t); break;
+            case 's': sv->send(t, a.d.empty() ? (const void *)&g_dummy : (const void *)a.d.data(), a.d.size()); break;
+        }
+    }
+}
+static void cl_run(int i, const NScript &sc) {
+    NScript acts = sc;
+    for (auto &a : acts) {
+        switch (a.kind) {
+            case 'p': cl[i]->stop(); break;
+            case 'c': cl[i]->cleanup(); break;
+            case 't': cl[i]->start(); break;
+            case 's': cl[i]->send(a.d.empty() ? (const void *)&g_dummy : (const void *)a.d.data(), a.d.size()); break;
+        }
+    }
+}
+static void kn_run(const NScript &sc) {
+    NScript acts = sc;
+    for (auto &a : acts) {
+        switch (a.kind) {
+            case 'p': kn->stop(); break;
+            case 'c': kn->cleanup(); break;
+            case 't': kn->start(); break;
+        }
+    }
+}
+static void sv_install() {
+    sv->setConnectedCallback([](const TcpServer::ConnToken &t) { add(sv_ev[tok_index(t)], 'C'); sv_run(sv_conn, t); });
+    sv->setDisconnectedCallback([](const TcpServer::ConnToken &t) { add(sv_ev[tok_index(t)], 'D'); sv_run(sv_disc, t); });
+    sv->setReceiveCallback([](const TcpServer::ConnToken &t, Buffer &b) {
+        add(sv_ev[tok_index(t)], 'R', b.readableBegin(), b.readableSize()); b.hasReadAll(); sv_run(sv_recv, t); }, 0);
+    sv->setSendCompleteCallback([](const TcpServer::ConnToken &t) { add(sv_ev[tok_index(t)], 'S'); sv_run(sv_sc, t); });
+}
+static void cl_install(int i) {
+    cl[i]->setConnectedCallback([i] { add(cl_ev[i], 'C'); cl_run(i, cl_conn[i]); });
+    cl[i]->setDisconnectedCallback([i] { add(cl_ev[i], 'D'); cl_run(i, cl_disc[i]); });
+    cl[i]->setReceiveCallback([i](Buffer &b) { add(cl_ev[i], 'R', b.readableBegin(), b.readableSize()); b.hasReadAll(); cl_run(i, cl_recv[i]); }, 0);
+    cl[i]->setSendCompleteCallback([i] { add(cl_ev[i], 'S'); cl_run(i, cl_sc[i]); });
+}
+static void kn_install() {
+    kn->setConnectedCallback([](TcpConnection *c) {
+        add(kn_ev, 'C');
+        c->disconnect();                                     // the bare connector's connections are not kept
+        g_loop->runNext([c] { delete c; }, "verif");
+        kn_run(kn_conn);
+    });
+    kn->setConnectFailCallback([] { add(kn_ev, 'F'); kn_run(kn_fail); });
+}
+
+static void raw_poll() {
+    if (raw_fd < 0 || raw_hold) return;
+    char buf[4096];
+    for (;;) {
+        ssize_t r = real_read()(raw_fd, buf, sizeof(buf));
+        if (r > 0) { raw_got.append(buf, r); ++g_activity; }
+        else { if (r == 0 && !raw_eof) { raw_eof = true; ++g_activity; } break; }
+    }
+}
+static bool g_livelock = false;
+static void drain() {
+    g_filter = true; g_mask = 0xffffffffu;
+    int idle = 0;
+    for (int i = 0; idle < 3; ++i) {
+        if (i >= 600) { g_livelock = true; break; }      // callback scripts feeding each other: never at rest
+        g_nevents = 0; g_activity = 0;
+        g_loop->runLoop(event::Loop::Mode::kOnce);
+        raw_poll();
+        if (g_nevents == 0 && g_activity == 0) ++idle; else idle = 0;
+    }
+    g_filter = false; g_mask = 0;
+}
+static void create() {
+    if (sv) return;
+    g_path = "/tmp/C06-net-" + std::to_string(getpid()) + ".sock";
+    unlink(g_path.c_str());
+    sv = new TcpServer(g_loop); sv_install();
+    for (int i = 0; i < 2; ++i) { cl[i] = new TcpClient(g_loop); cl_install(i); }
+    kn = new TcpConnector(g_loop);
+}
+static void destroy() {
+    if (!sv) return;
+    if (raw_fd >= 0) { close(raw_fd); raw_fd = -1; }
+    for (int i = 0; i < 2; ++i) { delete cl[i]; cl[i] = nullptr; cl_ev[i].clear(); cl_conn[i].clear(); cl_disc[i].clear(); cl_recv[i].clear(); cl_sc[i].clear(); }
+    delete kn; kn = nullptr; kn_ev.clear(); kn_fail.clear(); kn_conn.clear();
+    delete sv; sv = nullptr;
+    drain();
+    toks.clear(); sv_ev.clear(); sv_conn.clear(); sv_disc.clear(); sv_recv.clear(); sv_sc.clear();
+    raw_got.clear(); raw_eof = false; raw_hold = false; g_livelock = false;
+    unlink(g_path.c_str());
+}
+// canonical form of the callbacks of one connection in one op: C? R<all bytes>? S? D?  (how many
+// receive / send-complete callbacks the bytes were spread over is the kernel's business); "!order"
+// if connected was not first / disconnected not last / either came twice
+static std::string show(const std::vector<NEv> &v) {
+    std::string all; int nc = 0, nd = 0, ns = 0, nr = 0; bool bad = false;
+    for (size_t i = 0; i < v.size(); ++i) {
+        char k = v[i].kind;
+        if (k == 'F') return "F";
+        if (k == 'C') { ++nc; if (i != 0) bad = true; }
+        if (k == 'D') { ++nd; if (i + 1 != v.size()) bad = true; }
+        if (k == 'S') ++ns;
+        if (k == 'R') { ++nr; all += v[i].bytes; }
+    }
+    if (nc > 1 || nd > 1) bad = true;
+    std::string s;
+    auto put = [&s](const std::string &t) { if (!s.empty()) s += ","; s += t; };
+    if (nc) put("C");
+    if (nr) put("R" + digest((const uint8_t *)all.data(), all.size()));
+    if (ns) put("S");
+    if (nd) put("D");
+    if (bad) put("!order");
+    return s.empty() ? "-" : s;
+}
+static std::string show_kn(const std::vector<NEv> &v) {
+    std::string s;
+    for (auto &e : v) { if (!s.empty()) s += ","; s.push_back(e.kind); }
+    return s.empty() ? "-" : s;
+}
+static bool parse_script(const std::string &w, const std::string &allowed, NScript &out) {
+    out.clear();
+    if (w == "-") return true;
+    size_t pos = 0;
+    for (;;) {
+        size_t c = w.find(',', pos);
+        std::string t = w.substr(pos, c == std::string::npos ? std::string::npos : c - pos);
+        NAct a;
+        if (t == "stop") a.kind = 'p'; else if (t == "cleanup") a.kind = 'c'; else if (t == "disc") a.kind = 'd';
+        else if (t == "start") a.kind = 't';
+        else if (t.size() >= 2 && t[0] == 's' && t[1] == ':') { a.kind = 's'; if (!vh::unhex(t.substr(2), a.d) || a.d.size() > 64) return false; }
+        else return false;
+        if (allowed.find(a.kind) == std::string::npos) return false;
+        out.push_back(a);
+        if (c == std::string::npos) break;
+        pos = c + 1;
+    }
+    return out.size() <= 3;
+}
+static void report(int ret) {
+    drain();
+    if (g_livelock) { std::cout << "P livelock\n"; return; }
+    std::cout << "P ret=" << ret << " S" << (int)sv->state();
+    for (auto &kv : sv_ev) std::cout << " t" << kv.first << "=" << show(kv.second);
+    for (int i = 0; i < 2; ++i) {
+        std::string g; std::vector<NEv> cur;                      // one group per connection: a connected callback opens a new one
+        for (auto &e : cl_ev[i]) {
+            if (e.kind == 'C' && !cur.empty()) { g += (g.empty() ? "" : "|") + show(cur); cur.clear(); }
+            cur.push_back(e);
+        }
+        if (!cur.empty()) g += (g.empty() ? "" : "|") + show(cur);
+        std::cout << " C" << i << ":" << (int)cl[i]->state() << "=" << (g.empty() ? "-" : g);
+    }
+    std::cout << " K" << (int)kn->state() << "=" << show_kn(kn_ev);
+    std::cout << " raw=" << digest((const uint8_t *)raw_got.data(), raw_got.size()) << (raw_eof ? "|eof" : "") << "\n";
+    sv_ev.clear(); cl_ev[0].clear(); cl_ev[1].clear(); kn_ev.clear(); raw_got.clear();
+}
+// returns false for bad-op
+static bool op(const std::vector<std::string> &w) {
+    create();
+    if (g_livelock) { std::cout << "P livelock\n"; return true; }     // nothing more is compared in this case
+    const std::string &o = w[0];
+    SockAddr addr{DomainSockPath(g_path)};
+    uint64_t k = 0, n = 0; std::vector<uint8_t> d; NScript sc; int ret = 1;
+    auto cidx = [&](size_t pos) { return w.size() > pos && vh::to_u64(w[pos], k) && k < 2; };
+    if (o == "nsinit" && w.size() == 1) ret = sv->initialize(addr, 8);
+    else if (o == "nsstart" && w.size() == 1) ret = sv->start();
+    else if (o == "nsstop" && w.size() == 1) sv->stop();
+    else if (o == "nscleanup" && w.size() == 1) { sv->cleanup(); sv_install(); }
+    else if (o == "nssend" && w.size() == 3 && vh::to_u64(w[1], k) && k < 16 && vh::unhex(w[2], d) && d.size() <= 1024)
+        ret = k < toks.size() ? sv->send(toks[k], d.empty() ? (const void *)&g_dummy : (const void *)d.data(), d.size())
+                              : sv->send(TcpServer::ConnToken(1000 + k, k), "x", 1);        // a token this server never issued
+    else if (o == "nsdisc" && w.size() == 2 && vh::to_u64(w[1], k) && k < 16)
+        ret = k < toks.size() ? sv->disconnect(toks[k]) : sv->disconnect(TcpServer::ConnToken(1000 + k, k));
+    else if (o == "nsvalid" && w.size() == 2 && vh::to_u64(w[1], k) && k < 16)
+        ret = k < toks.size() ? sv->isClientValid(toks[k]) : sv->isClientValid(TcpServer::ConnToken(1000 + k, k));
+    else if (o == "nscb" && w.size() == 3 && (w[1] == "conn" || w[1] == "disc" || w[1] == "recv" || w[1] == "sc")
+             && parse_script(w[2], w[1] == "sc" ? "pd" : "pds", sc)) {
+        if (w[1] == "conn") sv_conn = sc; else if (w[1] == "disc") sv_disc = sc; else if (w[1] == "recv") sv_recv = sc; else sv_sc = sc;
+    }
+    else if (o == "ncinit" && w.size() == 2 && cidx(1)) { ret = cl[k]->initialize(addr); }
+    else if (o == "ncstart" && w.size() == 2 && cidx(1)) ret = cl[k]->start();
+    else if (o == "ncstop" && w.size() == 2 && cidx(1)) cl[k]->stop();
+    else if (o == "nccleanup" && w.size() == 2 && cidx(1)) { cl[k]->cleanup(); cl_install((int)k); }
+    else if (o == "ncrec" && w.size() == 3 && cidx(1) && vh::to_u64(w[2], n) && n <= 1) cl[k]->setAutoReconnect(n == 1);
+    else if (o == "ncsend" && w.size() == 3 && cidx(1) && vh::unhex(w[2], d) && d.size() <= 1024)
+        ret = cl[k]->send(d.empty() ? (const void *)&g_dummy : (const void *)d.data(), d.size());
+    else if (o == "nccb" && w.size() == 4 && cidx(1) && (w[2] == "conn" || w[2] == "disc" || w[2] == "recv" || w[2] == "sc")
+             && parse_script(w[3], (w[2] == "conn" || w[2] == "disc") ? "pts" : "pt", sc)) {
+        if (w[2] == "conn") cl_conn[k] = sc; else if (w[2] == "disc") cl_disc[k] = sc; else if (w[2] == "recv") cl_recv[k] = sc; else cl_sc[k] = sc;
+    }
+    else if (o == "nkinit" && w.size() == 2 && vh::to_u64(w[1], n) && n <= 5) { kn->initialize(addr); kn_install(); kn->setTryTimes((int)n); }
+    else if (o == "nkstart" && w.size() == 1) ret = kn->start();
+    else if (o == "nkstop" && w.size() == 1) kn->stop();
+    else if (o == "nkcleanup" && w.size() == 1) kn->cleanup();
+    else if (o == "nkcb" && w.size() == 3 && (w[1] == "fail" || w[1] == "conn") && parse_script(w[2], "p", sc)) {
+        if (w[1] == "fail") kn_fail = sc; else if (w[1] == "conn") kn_conn = sc; else return false;
+    }
+    else if (o == "nrconn" && w.size() == 1 && raw_fd < 0) {
+        raw_fd = socket(AF_UNIX, SOCK_STREAM | SOCK_NONBLOCK, 0);
+        struct sockaddr_un a; socklen_t len = addr.toSockAddr(a);
+        ret = ::connect(raw_fd, (struct sockaddr *)&a, len) == 0;
+        if (!ret) { close(raw_fd); raw_fd = -1; }
+        raw_eof = false;
+    }
+    else if (o == "nrsend" && w.size() == 2 && raw_fd >= 0 && vh::unhex(w[1], d) && d.size() <= 1024 && !d.empty())
+        ret = real_write()(raw_fd, d.data(), d.size()) == (ssize_t)d.size();
+    else if (o == "nrclose" && w.size() == 1 && raw_fd >= 0) { close(raw_fd); raw_fd = -1; }
+    else if (o == "nrhold" && w.size() == 3 - 1 && vh::to_u64(w[1], n) && n <= 1) raw_hold = (n == 1);
+    else if (o == "nadv" && w.size() == 2 && vh::to_u64(w[1], n) && n <= 100000) vt::advance_ms((int64_t)n);
+    else return false;
+    report(ret);
+    return true;
+}
+}  // namespace net
+
 static void pass(uint32_t mask) {
     g_filter = true; g_mask = mask;
     g_loop->runLoop(event::Loop::Mode::kOnce);
@@ -461,6 +725,7 @@ static void pass(uint32_t mask) {
 int main() {
     signal(SIGPIPE, SIG_IGN);
     LogOutput_Disable();
+    vt::enable(1000, 1700000000000LL);
     g_loop = event::Loop::New("epoll");
     std::string line;
     new_case();
@@ -469,6 +734,13 @@ int main() {
         if (w.empty()) continue;
         if (w[0] == "case") { new_case(); std::cout << line << "\n"; continue; }
         const std::string &op = w[0];
+        if (op.size() >= 2 && op[0] == 'n' && std::string("sckra").find(op[1]) != std::string::npos) {
+            int saved = g_fd; g_fd = -1;
+            bool okn = net::op(w);
+            g_fd = saved;
+            if (!okn) std::cout << "bad-op\n";
+            continue;
+        }
         std::vector<uint8_t> d; uint64_t n = 0, k = 0; Script sc;
         bool ok = true; int ret = 1;
         if (op == "init" && w.size() == 2 && vh::to_u64(w[1], n) && n <= 7 && !g_conn) {
@@ -541,8 +813,10 @@ int main() {
                 || c1 == 0 || c2 == 0 || n1 == 0 || n2 == 0 || n1 > 16777216 || n2 > 16777216 || (sc && sb != 0) || (w[7][0] == 's' && thr > 1)) {
                 std::cout << "bad-op\n"; continue;
             }
-            int saved = g_fd; g_fd = -1;           // no interposition for the end-to-end run
+            int saved = g_fd; g_fd = -1;           // no interposition, real clock for the end-to-end run
+            vt::disable();
             run_e2e(sc, n1, c1, n2, c2, thr, w[7][0], sb);
+            vt::enabled = true;
             g_fd = saved;
             continue;
         } else ok = false;
